@@ -1,0 +1,39 @@
+// +build verif
+
+// Accessors used by the external verification harness (/verif, property C04).
+// Compiled only with -tags verif; nothing here changes behaviour.
+
+package ucon
+
+import (
+	"crypto/ecdsa"
+	"math/big"
+
+	"github.com/youchainhq/go-youchain/common"
+	"github.com/youchainhq/go-youchain/consensus"
+	"github.com/youchainhq/go-youchain/params"
+)
+
+// VerifC04Choose exposes the unexported sortition quantile function.
+func VerifC04Choose(hash common.Hash, w *big.Int, p float64) int64 {
+	return choose(hash, w, p)
+}
+
+// VerifC04Server returns a Server holding only what the message-level
+// credential verifiers (verifyPriority / verifySortition) read: the chain
+// reader, the protocol parameters of the current round and the round position.
+func VerifC04Server(chain consensus.ChainReader, yp *params.YouParams, currentRound *big.Int, roundIndex uint32) *Server {
+	return &Server{chain: chain, currRoundParams: yp, currentRound: currentRound, roundIndex: roundIndex}
+}
+
+// VerifC04VerifyPriority calls the proposal-message credential verifier
+// (the function handed to NewProposal in production).
+func (s *Server) VerifC04VerifyPriority(pubkey *ecdsa.PublicKey, data *ConsensusCommon) error {
+	return s.verifyPriority(pubkey, data)
+}
+
+// VerifC04VerifySortition calls the vote-message credential verifier
+// (the function handed to NewVoter in production).
+func (s *Server) VerifC04VerifySortition(pubkey *ecdsa.PublicKey, data *SortitionData, lbType params.LookBackType) error {
+	return s.verifySortition(pubkey, data, lbType)
+}
